@@ -370,7 +370,7 @@ func c16Diff(got, want []byte) string {
 // ---------------------------------------------------------------- one case
 
 func runC16Case(id string, c *c16Case) {
-	defer recoverCase(id, c)
+	defer watchCase(id, c)()
 	if c.Mode == "session" {
 		runC16Session(id, c)
 		return
